@@ -106,6 +106,9 @@ def run(case):
                 queries.append(("is_scc_edge", list(e)))
                 if len(E) >= 2:  # width is specified only while at least one arc remains (C09)
                     queries.append(("get_width_ign", list(e)))
+            if len(E) >= 2:
+                for e in E:
+                    queries.append(("get_width_ign_dup", list(e)))   # the same arc listed twice in edges_to_ignore
             queries += [("max_reachable",), ("get_width",), ("n_sccs",)]
         else:
             for nm in ("reachable_nodes_from", "nodes_reaching", "reachable_edges_from", "reachable_edges_rev_from"):
@@ -113,7 +116,9 @@ def run(case):
             for e in E[:3]:
                 if len(E) >= 2:
                     queries.append(("get_width_ign", list(e)))
-            queries += [("get_width",)]
+            if len(E) >= 2:
+                queries.append(("get_width_ign_dup", list(E[0])))
+            queries += [("get_width",), ("get_width_ign_all",)]   # every arc ignored: nothing has to be covered
 
         def fresh(st_obj=None):
             return cls(G)
@@ -139,6 +144,10 @@ def run(case):
                 return obj.get_width()
             if k == "get_width_ign":
                 return obj.get_width(list(obj.source_sink_edges) + [tuple(q[1])])
+            if k == "get_width_ign_dup":
+                return obj.get_width(list(obj.source_sink_edges) + [tuple(q[1]), tuple(q[1])])
+            if k == "get_width_ign_all":
+                return obj.get_width(list(obj.source_sink_edges) + [tuple(e) for e in E])
             if k == "n_sccs":
                 return obj.get_number_of_nontrivial_SCCs()
             if k == "reachable_nodes_from":
@@ -176,8 +185,10 @@ def run(case):
                 return out
             if k == "get_width":
                 return O.min_cover(g, list(E))
-            if k == "get_width_ign":
+            if k in ("get_width_ign", "get_width_ign_dup"):
                 return O.min_cover(g, [e for e in E if e != tuple(q[1])])
+            if k == "get_width_ign_all":
+                return 0
             if k == "n_sccs":
                 comps = set()
                 for v in nodes_all:
